@@ -22,6 +22,7 @@ import (
 	"math/rand"
 	"os"
 	"sort"
+	"strings"
 	"sync"
 	"sync/atomic"
 	"time"
@@ -108,6 +109,7 @@ func main() {
 	r.FloorCount("acked_mutations", int64(r.Pick(1000, 15000)))
 	r.FloorCount("linearizable_reads_judged", int64(r.Pick(300, 5000)))
 	r.FloorCount("linearizable_reads_on_lagging_node_while_behind", int64(r.Pick(50, 800)))
+	r.FloorCount("big_streams_of_several_messages", int64(r.Pick(40, 400)))
 	r.FloorCount("probe_readonly_txns", int64(r.Pick(2000, 20000)))
 	r.FloorCount("empty_branch_txns_acked", int64(r.Pick(20, 300)))
 	r.FloorNontrivial(int64(r.Pick(50, 800)))
@@ -294,6 +296,90 @@ func runOne(r *ev.Run, seed int64, profile string) {
 			}
 		}(p)
 	}
+	// streamed reads larger than one message (table "big") taken on every node while its two marker
+	// pairs are being rewritten: the pairs of one stream are one state of the table, whatever state
+	bigOK := false
+	if _, err := c.CreateTable("big"); err == nil {
+		bigOK = true
+	}
+	// 36 static pairs of 128 KiB between two small markers that one transaction always rewrites together
+	mkBig := func(gen int) *pb.TxnRequest {
+		tx := &pb.TxnRequest{Table: []byte("big")}
+		for _, k := range []string{"a-marker", "zz-marker"} {
+			tx.Success = append(tx.Success, &pb.RequestOp{Request: &pb.RequestOp_RequestPut{RequestPut: &pb.RequestOp_Put{Key: []byte(k), Value: []byte(fmt.Sprintf("gen%06d|", gen))}}})
+		}
+		return tx
+	}
+	for i := 0; i < 36 && bigOK; i++ {
+		v := make([]byte, 128*1024)
+		copy(v, "static..|")
+		ctx, cancel := context.WithTimeout(context.Background(), 20*time.Second)
+		_, err := c.Nodes[0].Engine.Put(ctx, &pb.PutRequest{Table: []byte("big"), Key: []byte(fmt.Sprintf("m%02d", i)), Value: v})
+		cancel()
+		bigOK = err == nil
+	}
+	if bigOK {
+		ctx, cancel := context.WithTimeout(context.Background(), 20*time.Second)
+		_, err := c.Nodes[0].Engine.Txn(ctx, mkBig(0))
+		cancel()
+		bigOK = err == nil
+	}
+	if bigOK {
+		pwg.Add(1)
+		go func() {
+			defer pwg.Done()
+			for gen := 1; !stopProbe.Load() && tear.Load() == nil; gen++ {
+				ctx, cancel := context.WithTimeout(context.Background(), 20*time.Second)
+				_, err := c.Nodes[gen%2].Engine.Txn(ctx, mkBig(gen))
+				cancel()
+				if err == nil {
+					r.Count("big_table_rewrites", 1)
+				} else {
+					r.Count("big_table_rewrites_failed: "+err.Error(), 1)
+				}
+				time.Sleep(40 * time.Millisecond)
+			}
+		}()
+		for p := 0; p < 2; p++ {
+			pwg.Add(1)
+			go func(p int) {
+				defer pwg.Done()
+				for n := 0; !stopProbe.Load() && tear.Load() == nil; n++ {
+					node := (p + n) % 3
+					ctx, cancel := context.WithTimeout(context.Background(), 20*time.Second)
+					seq, err := c.Nodes[node].Engine.IterateRange(ctx, &pb.RangeRequest{Table: []byte("big"), Key: []byte{0}, RangeEnd: []byte{0}, Linearizable: n%2 == 0})
+					if err != nil {
+						cancel()
+						time.Sleep(10 * time.Millisecond)
+						continue
+					}
+					var gens []string
+					msgs := 0
+					seq(func(m *pb.RangeResponse) bool {
+						msgs++
+						for _, kv := range m.Kvs {
+							gens = append(gens, fmt.Sprintf("%s=%s", kv.Key, kv.Value[:9]))
+						}
+						time.Sleep(time.Duration(5+n%20) * time.Millisecond) // a consumer that takes its time
+						return true
+					})
+					cancel()
+					if len(gens) != 38 {
+						continue // cut short by the deadline or an election: not judged
+					}
+					r.Count("big_streams_read", 1)
+					if msgs >= 2 {
+						r.Count("big_streams_of_several_messages", 1)
+					}
+					first, last := gens[0], gens[37]
+					if first[len("a-marker="):] != last[len("zz-marker="):] {
+						tear.Store(fmt.Sprintf("streamed read of table big on node %d (%d messages, 4.5 MiB) returned %s in its first and %s in its last message: the two markers are always written together by one transaction, no state of the table holds this combination", node+1, msgs, first, last))
+						return
+					}
+				}
+			}(p)
+		}
+	}
 	for cl := 0; cl < nClients; cl++ {
 		wg.Add(1)
 		go func(cl int) {
@@ -431,7 +517,11 @@ func runOne(r *ev.Run, seed int64, profile string) {
 	close(stopTransfer)
 	stopLag.Store(true)
 	if v := tear.Load(); v != nil {
-		r.Violation("readonly-transaction-reads-several-states", v.(string), witness{RunSeed: seed, Profile: profile, What: v.(string)})
+		sig := "readonly-transaction-reads-several-states"
+		if strings.HasPrefix(v.(string), "streamed read") {
+			sig = "streamed-read-mixes-several-states"
+		}
+		r.Violation(sig, v.(string), witness{RunSeed: seed, Profile: profile, What: v.(string)})
 	}
 	r.Count("ops_recorded", int64(len(hist)))
 	if ambiguous.Load() {
